@@ -211,7 +211,9 @@ func checkJSONRelink(c *Ctx, parse *ssa.Function, seqT types.Type) {
 		c.undecided("RELINK", "Parse:unmarshal whole Sequence", parse.Pos(), fmt.Sprintf("%d json.Unmarshal calls into a local", n))
 		return
 	case tname(deref(dec.Type())) != "poly.Sequence":
-		c.bad("RELINK", "Parse:unmarshal whole Sequence", um.Pos(), "the input is decoded into a "+tname(deref(dec.Type()))+", not a whole poly.Sequence")
+		// a type of the package's own (an envelope, a type with an UnmarshalJSON hook) may decode every
+		// field all the same: which keys it reads is decided by encoding/json from its tags and methods
+		c.undecided("RELINK", "Parse:unmarshal whole Sequence", um.Pos(), "the input is decoded into a "+tname(deref(dec.Type()))+", not directly into a poly.Sequence; what that type decodes is not followed")
 		return
 	case !stripConv(tb.T(um.Common().Args[0])).isParam(0):
 		c.undecided("RELINK", "Parse:unmarshal whole Sequence", um.Pos(), "decoded data is "+short(tb.T(um.Common().Args[0]).String()))
